@@ -140,6 +140,17 @@ def history(draw, ntapes=3):
             f["v"] = float(f["text"])
             lines += [f"bz{b}.play_tone({f['text']})", f"mon.write('{m}a')"]
             ops.append({"m": m + "a", "b": b, "op": "play_tone", "f": f, "d": None})
+            if draw(st.booleans()):
+                # ... or a beep that is silent because its frequency is <= 0, with real waits: the pin must be silent while they pass
+                f0 = draw(st.sampled_from([0, -440, -1]))
+                fz = {"text": repr(f0), "kind": "lit", "v": f0}
+                on = {"text": "5", "kind": "lit", "v": 5}; off = {"text": "2", "kind": "lit", "v": 2}
+                tn = draw(st.sampled_from([1, 2]))
+                times = {"text": repr(tn), "kind": "lit", "v": tn}
+                lines += [f"bz{b}.beep({fz['text']}, on_ms=5, off_ms=2, times={tn})", f"mon.write('{m}')"]
+                ops.append({"m": m, "b": b, "op": "beep", "f": fz, "on": on, "off": off, "times": times})
+                boundary[0] += 1
+                continue
             t0 = draw(st.sampled_from([0, -1, -3]))
             on, off, times = arg(DURS), arg(DURS), {"text": repr(t0), "kind": "lit", "v": t0}
             lines += [f"bz{b}.beep(on_ms={on['text']}, off_ms={off['text']}, times={times['text']})", f"bz{b}.stop()", f"mon.write('{m}')"]
